@@ -11,15 +11,15 @@ import (
 )
 
 type FuncResult struct {
-	Key       string
-	Obls      []*Obligation
-	Notes     map[string]int
-	Assumed   map[string]int
-	Blocks    int
-	Instrs    int
-	Passes    int
+	Key        string
+	Obls       []*Obligation
+	Notes      map[string]int
+	Assumed    map[string]int
+	Blocks     int
+	Instrs     int
+	Passes     int
 	LoopsNoInv int
-	Err       string
+	Err        string
 }
 
 type verifyOpts struct {
@@ -37,11 +37,16 @@ func verifyFunction(L *Loaded, DB *SpecDB, fn *ssa.Function, spec *FuncSpec, opt
 	}()
 	arrays := map[string]string{}
 	loopMods := map[string]map[string]bool{}
+	keyDecls := map[string]string{}
 	var x *Exec
 	for pass := 1; pass <= 8; pass++ {
 		x = &Exec{L: L, DB: DB, smt: newSMT(), arrays: arrays, notes: map[string]int{}, assumed: map[string]int{},
 			typeIDs: map[string]int{}, typeOf: map[int]types.Type{}, sweep: opts.sweep || (spec != nil && spec.Sweep), fnKey: funcKey(fn), covers: opts.covers,
-			globalsInit: map[string]bool{}, loopMods: loopMods}
+			globalsInit: map[string]bool{}, loopMods: loopMods, keyDecls: keyDecls, private: map[*ssa.Alloc]bool{}}
+		for _, name := range sortedKeys(keyDecls) {
+			x.smt.funs[name] = "datatype"
+			x.smt.decls = append(x.smt.decls, keyDecls[name])
+		}
 		if spec != nil {
 			for _, s := range spec.Sites {
 				s.matched = 0
